@@ -54,6 +54,11 @@ PROP_OF = {"crash": "C01", "exit": "C01", "stderr": "C01", "probe": "C01",
 # verdict classes that depend on elapsed time or on the load of the machine: they are reported only when the cycle, run
 # again alone, fails in the same class twice more
 TIMED = ("stall", "latency", "missing", "count-short", "probe", "rss", "alloc", "amplification")
+# verdict classes that one datagram of ANOTHER process could cause (the machine is shared: a sender of another check whose
+# collector has just released the port the kernel then gave to ours): a counter beyond what was sent, a line that is no payload of
+# ours. They are reported when the cycle, run again alone on fresh ports, shows a finding of these classes once more (a defect of
+# the collector on this stream does; a stray datagram does not). A crash, an exit status, a duplicate need no confirmation
+STRAY = ("count", "invented", "cross")
 
 NO_PROGRESS_S = 10.0          # no counter moved for this long while something is outstanding
 PROBE_LATENCY_S = 5.0
@@ -838,6 +843,13 @@ def run_cycles(tier, seed):
                         break
                 else:
                     confirmed.add(cls0)
+            elif findings and all(c in STRAY for c, _ in findings) and findings[0][0] not in confirmed:
+                reruns += 1
+                o2, f2, s2 = traffic_cycle(i, seed, binary, params)
+                if any(c in STRAY for c, _ in f2):
+                    confirmed.add(findings[0][0])
+                else:
+                    outcome, findings, sample = "skipped:not-reproduced", [], dict(s2, first_verdict="fail:%s %s" % (findings[0][0], findings[0][1][:700]))
             out.append((i, params, outcome, findings, sample, reruns))
         _RUNS[(tier, seed)] = {"built": True, "cycles": out, "wall_s": round(time.time() - t0, 1)}
         return _RUNS[(tier, seed)]
